@@ -168,6 +168,24 @@ def Sig.noReturn (s : Sig) : Bool :=
   | .wrapped => !s.returns.truthy
   | _ => (match s.returns with | .none => true | _ => false)
 
+/-- was the out-message synthesised by the decorator (`Attributes._wrapper`)?  Always for
+    `wrapped`; otherwise only when no `_returns` is given (decorator.py:234-244). A member-less
+    class of the user that is declared as the return type is NOT such a wrapper. -/
+def Sig.outIsWrapper (s : Sig) : Bool :=
+  match s.style with
+  | .wrapped => true
+  | _ => (match s.returns with | .none => true | _ => false)
+
+/-- `len(out_message._type_info)` when the out-message is a `ComplexModelBase` subclass -/
+def Sig.outMembers (s : Sig) : Option Nat :=
+  match s.style with
+  | .wrapped => some s.outLen
+  | _ =>
+    (match s.returns with
+     | .none => some 0
+     | .one k => k.complexFields
+     | .many _ => Option.none)
+
 /-! ## Facts about /repo (T1) -/
 
 /-- what `ServerBase.get_out_object` puts in place of an `Ignored` that is the whole
@@ -224,6 +242,10 @@ structure Facts18 where
   /-- `len(out_message._type_info) <= k` in process_request wraps a single result: the `k` -/
   wrapUpTo : Nat
   cbOrder : CbOrder
+  /-- `_is_empty_wrapper` (null.py) requires `out_message.Attributes._wrapper` -/
+  ewWrapper : Bool
+  /-- `_is_empty_wrapper` (null.py) requires `len(out_message._type_info) == 0` -/
+  ewMembers : Bool
   ignMany : IgnMany
   xml : ProtoCfg
   soap : ProtoCfg
@@ -238,7 +260,8 @@ instance (p : ProtoCfg) : Decidable p.Good := by unfold ProtoCfg.Good; infer_ins
 def Facts18.Good (F : Facts18) : Prop :=
   F.isOutBare .wrapped = false ∧ F.isOutBare .empty = true ∧ F.isOutBare .bare = true ∧
   F.isOutBare .outBare = true ∧ F.isOutBare .emptyOutBare = true ∧
-  F.wrapUpTo = 1 ∧ F.cbOrder = .noReturnFirst ∧ F.ignMany = .nones
+  F.wrapUpTo = 1 ∧ F.cbOrder = .noReturnFirst ∧ F.ignMany = .nones ∧
+  F.ewWrapper = true ∧ F.ewMembers = true
 
 instance (F : Facts18) : Decidable F.Good := by unfold Facts18.Good; infer_instance
 
@@ -312,11 +335,18 @@ def first : Val → Res Val
   | .seq [] => .exc "IndexError"
   | _ => .exc "TypeError"
 
+/-- `_is_empty_wrapper(out_message)`: a `ComplexModelBase` subclass that is a synthesised wrapper
+    and has no members (each of the two tests as /repo makes it) -/
+def isEmptyWrapper (F : Facts18) (s : Sig) : Bool :=
+  match s.outMembers with
+  | Option.none => false
+  | some n => (!F.ewWrapper || s.outIsWrapper) && (!F.ewMembers || n == 0)
+
 def cbSync (F : Facts18) (s : Sig) (out : Val) : Res Val :=
   match out with
   | .seq (.ignored x :: _) => .ok (.ignored x)
   | _ =>
-    if F.cbOrder = .noReturnFirst && s.noReturn then .ok .none
+    if F.cbOrder = .noReturnFirst && isEmptyWrapper F s then .ok .none
     else if F.isOutBare s.bodyStyle then first out
     else if s.bodyStyle = .empty then .ok .none
     else if s.outLen = 0 then .ok .none
